@@ -148,7 +148,18 @@ impl Driver {
                 a.time_capped = true;
                 return;
             }
-            let res = (it.run)();
+            // "did not become quiescent" is the harness's own settling giving up (the fingerprint
+            // kept changing for 64 rounds: other processes starving the worker threads); the
+            // execution is simply repeated, up to three times, before it counts as a machinery failure
+            let mut res = (it.run)();
+            for _ in 0..3 {
+                if !res.machinery.as_deref().is_some_and(|m| m.contains("quiescent")) {
+                    break;
+                }
+                self.agg.lock().unwrap().counters.entry("executions_repeated_after_unstable_settle".into()).and_modify(|n| *n += 1).or_insert(1);
+                std::thread::sleep(Duration::from_millis(50));
+                res = (it.run)();
+            }
             self.process(it, res);
             util::drop_helpers_if_idle();
         });
